@@ -27,6 +27,16 @@ PROPS = {
                     'tie = fact tables + lock-step on the real ResourceManager/ReservedResources.',
         assumptions=['request dictionaries have distinct keys (Python dicts)', 'a.merge(a) is outside the property (two distinct reservations)',
                      'ReservedResources.__del__ (a print) not modelled']),
+    'C10': dict(
+        vfile='Props/C10.v', ties=['Tie/TieEnv.v', 'Tie/TieRM.v'],
+        families=[('rm', 1500, 40000, 'small', 'large')],
+        rule='F_rm scenarios with waiting callbacks that reserve/release/add/register inside the callback, several waiters, capacity schedules; '
+             'non-trivial = at least two registrations and at least one callback invocation; distinct by scenario text',
+        explanation='Scan theorems (only-when-feasible, exactly-once via ghost registration numbers, registration order, completeness) and the '
+                    'system-level invariant "nothing feasible waits or a check is pending now", preserved by every event and external call; '
+                    'tie = fact tables + lock-step on the real ResourceManager inside the real Environment.',
+        assumptions=['callbacks do not raise (a raising callback leaves its entry in the list: outside the well-posed class)',
+                     'registration numbers and logged pools are ghost fields of the model']),
 }
 
 LEVELS = {
@@ -48,9 +58,15 @@ LEVELS = {
              '(coq/Findings/C09_refuted.v) and were repaired by fix: commits.',
         design_ref='DESIGN.md section 8, C09', technique='Coq proof (state-machine invariant + operation specifications) + lock-step correspondence with ResourceManager',
         note='Trusted: Coq kernel, pyfacts.py, extraction + OCaml driver, Python harness. Names are integers, amounts on the 1/8 grid.'),
+    'C10': dict(
+        text='Machine-checked Coq theorems: the availability scan invokes a callback only when the request fits at that moment, never twice for one registration, '
+             'in registration order, and leaves nothing feasible waiting unless a further check is scheduled now; lifted to the manager+queue system: '
+             'invariant preserved by every event/external call, so no feasible request waits when the clock advances.',
+        design_ref='DESIGN.md section 8, C10', technique='Coq proof (loop invariants of the scan + system invariant over the event queue) + lock-step correspondence',
+        note='Trusted: Coq kernel, pyfacts.py, extraction + OCaml driver, Python harness. Callback bodies range over all scripted operation lists.'),
 }
 
 NOT_APPLICABLE = [
     dict(property_id=p, reason='check under construction in this round (model layer not yet built); see DESIGN.md section 12 build order')
-    for p in ['C02', 'C03', 'C04', 'C05', 'C06', 'C08', 'C10', 'C11', 'C12', 'C13', 'C14', 'C15', 'C16', 'C17', 'C18', 'C19', 'C20']
+    for p in ['C02', 'C03', 'C04', 'C05', 'C06', 'C08', 'C11', 'C12', 'C13', 'C14', 'C15', 'C16', 'C17', 'C18', 'C19', 'C20']
 ]
